@@ -19,6 +19,7 @@ package main
 import (
 	"bytes"
 	"fmt"
+	"google.golang.org/protobuf/reflect/protoreflect"
 	"os"
 	"runtime/debug"
 	"sort"
@@ -59,6 +60,13 @@ type world struct {
 	results  *lib.CertificateResult
 	txs      [][]byte
 	txSigner crypto.PrivateKeyI
+	cmsgs    []cmsg // the consensus exemplars as objects (before signing), for the re-signed structural family
+}
+
+type cmsg struct {
+	name string
+	m    *bft.Message
+	by   int
 }
 
 func view(p lib.Phase) *lib.View {
@@ -314,6 +322,7 @@ func buildExemplars(w *world) []exemplar {
 		{"election-vote+highqc+evidence", &bft.Message{Qc: &lib.QuorumCertificate{Header: view(lib.Phase_ELECTION_VOTE), ProposerKey: pk0},
 			HighQc: w.qcFor(lib.Phase_PROPOSE_VOTE, true), LastDoubleSignEvidence: []*bft.DoubleSignEvidence{w.dse()}, RcBuildHeight: rootH}, 2},
 		{"propose", &bft.Message{Header: view(lib.Phase_PROPOSE), Qc: w.qcFor(lib.Phase_ELECTION_VOTE, true), RcBuildHeight: rootH}, 0},
+		{"propose+highqc", &bft.Message{Header: view(lib.Phase_PROPOSE), Qc: w.qcFor(lib.Phase_ELECTION_VOTE, true), HighQc: w.qcFor(lib.Phase_PROPOSE_VOTE, true), RcBuildHeight: rootH}, 0},
 		{"propose-vote", &bft.Message{Qc: &lib.QuorumCertificate{Header: view(lib.Phase_PROPOSE_VOTE), BlockHash: w.blockObj.BlockHeader.Hash, ResultsHash: w.results.Hash(), ProposerKey: pk0}}, 1},
 		{"propose-vote+block", &bft.Message{Qc: &lib.QuorumCertificate{Header: view(lib.Phase_PROPOSE_VOTE), BlockHash: w.blockObj.BlockHeader.Hash, ResultsHash: w.results.Hash(), ProposerKey: pk0,
 			Block: w.block}}, 2},
@@ -322,7 +331,9 @@ func buildExemplars(w *world) []exemplar {
 		{"commit", &bft.Message{Header: view(lib.Phase_COMMIT), Qc: w.qcFor(lib.Phase_PRECOMMIT_VOTE, false), Timestamp: 1700000000000002}, 0},
 		{"round-interrupt", &bft.Message{Qc: &lib.QuorumCertificate{Header: view(lib.Phase_ROUND_INTERRUPT)}}, 1},
 	}
+	w.cmsgs = nil
 	for _, m := range msgs {
+		w.cmsgs = append(w.cmsgs, cmsg{m.name, proto.Clone(m.m).(*bft.Message), m.by})
 		ex = append(ex, exemplar{"consensus:" + m.name, "bft.Message", mustMarshal(w.signMsg(m.m, m.by))})
 	}
 	// p2p wire
@@ -800,6 +811,82 @@ func genInputs(ex exemplar, pairWindow int) (out []input) {
 	return
 }
 
+// resignedInputs: structural malformations of consensus messages that are SIGNED AFTER the malformation (a byte-level
+// mutation of a signed message dies at the signature check; a committee member can sign anything). For every
+// sub-message of every consensus exemplar, down to depth 3: the sub-message emptied, and each of its populated
+// fields cleared one at a time; for every repeated message field: one empty element. The message is then signed by
+// the exemplar's sender.
+func resignedInputs(w *world) (out []input) {
+	type path []protoreflect.FieldDescriptor
+	var visit func(root *bft.Message, cur protoreflect.Message, p path, depth int, emit func(desc string, mutate func(m protoreflect.Message)))
+	nav := func(root protoreflect.Message, p path) protoreflect.Message {
+		cur := root
+		for _, fd := range p {
+			cur = cur.Mutable(fd).Message()
+		}
+		return cur
+	}
+	visit = func(root *bft.Message, cur protoreflect.Message, p path, depth int, emit func(desc string, mutate func(m protoreflect.Message))) {
+		cur.Range(func(fd protoreflect.FieldDescriptor, v protoreflect.Value) bool {
+			if fd.Kind() != protoreflect.MessageKind || fd.IsMap() {
+				return true
+			}
+			name := ""
+			for _, x := range p {
+				name += string(x.Name()) + "."
+			}
+			name += string(fd.Name())
+			if fd.IsList() {
+				fd := fd
+				pp := append(path{}, p...)
+				emit("list("+name+")+empty-element", func(m protoreflect.Message) {
+					l := nav(m, pp).Mutable(fd).List()
+					l.Append(l.NewElement())
+				})
+				return true
+			}
+			pp := append(path{}, p...)
+			emit("empty("+name+")", func(m protoreflect.Message) {
+				par := nav(m, pp)
+				par.Set(fd, par.NewField(fd))
+				par.Mutable(fd) // present, no fields
+			})
+			sub := v.Message()
+			sub.Range(func(f2 protoreflect.FieldDescriptor, _ protoreflect.Value) bool {
+				emit("clear("+name+"."+string(f2.Name())+")", func(m protoreflect.Message) {
+					nav(m, append(append(path{}, pp...), fd)).Clear(f2)
+				})
+				return true
+			})
+			if depth < 3 {
+				visit(root, sub, append(append(path{}, p...), fd), depth+1, emit)
+			}
+			return true
+		})
+	}
+	for _, c := range w.cmsgs {
+		c := c
+		visit(c.m, c.m.ProtoReflect(), nil, 1, func(desc string, mutate func(m protoreflect.Message)) {
+			m := proto.Clone(c.m).(*bft.Message)
+			mutate(m.ProtoReflect())
+			m.Signature = nil
+			func() {
+				defer func() { _ = recover() }() // signing a message the product's own SignBytes cannot serialise: nothing to send
+				w.signMsg(m, c.by)
+			}()
+			if m.Signature == nil {
+				return
+			}
+			bz, err := proto.Marshal(m)
+			if err != nil {
+				return
+			}
+			out = append(out, input{target: "bft.Message", ex: "consensus:" + c.name, mut: "resigned:" + desc, bz: bz})
+		})
+	}
+	return
+}
+
 // nestedCertificates builds QC > block > header > lastQC > block > ... to the given depth.
 func nestedCertificates(w *world, depth int) []byte {
 	inner := w.qcFor(lib.Phase_PRECOMMIT_VOTE, false)
@@ -902,7 +989,7 @@ type decodeReport struct {
 }
 
 func mutFamily(m string) string {
-	for _, p := range []string{"truncate", "bytes@", "byte@", "len(", "drop-field", "unknown-field", "unknown-group-depth", "short-string", "nested-certificates"} {
+	for _, p := range []string{"truncate", "bytes@", "byte@", "len(", "drop-field", "unknown-field", "unknown-group-depth", "short-string", "nested-certificates", "resigned"} {
 		if strings.HasPrefix(m, p) {
 			return strings.TrimRight(p, "(@")
 		}
@@ -952,11 +1039,12 @@ func runDecoders(r *mc.Run, w *world, rep *decodeReport) {
 	for d := 0; d <= 40; d++ {
 		inputs = append(inputs, input{target: "QuorumCertificate", ex: "qc:nested", mut: fmt.Sprintf("nested-certificates-depth=%d", d), bz: nestedCertificates(w, d)})
 	}
+	inputs = append(inputs, resignedInputs(w)...)
 	// cheap, structure-aware families first; the bulk (byte substitutions) last, so that a soft
 	// deadline on a loaded machine only ever cuts the tail of the largest family
 	prio := func(in input) int {
 		switch mutFamily(in.mut) {
-		case "unknown-field", "unknown-group-depth":
+		case "unknown-field", "unknown-group-depth", "resigned":
 			return 0
 		case "drop-field", "nested-certificates":
 			return 1
